@@ -572,7 +572,14 @@ func (e *Env) call(x ECall) Val {
 		sfail("len of %T in %s: %+v", v, x, v)
 	case "maplen": // number of entries of a map (a function of the map and the map heap)
 		m := e.evalInt(x.Args[0])
-		return VInt{sel(c.heapGet(e.st, "M$len", arrSort(sInt)), m)}
+		n := sel(c.heapGet(e.st, "M$len", arrSort(sInt)), m)
+		if mt := e.mapType(x.Args[0]); mt != nil && c.mapKeyOK(mt) && !strings.Contains(m, "q.") {
+			// a map with a key is not empty (fact about every well-formed map heap)
+			q := c.fresh("lk")
+			h := sel(c.heapGet(e.st, mapFamH(mt), mapSort(2, sBool)), m)
+			c.assert(fmt.Sprintf("(forall ((%s Int)) (! (=> (select %s %s) (< 0 %s)) :pattern ((select %s %s))))", q, h, q, n, h, q))
+		}
+		return VInt{n}
 	case "cap":
 		v := e.eval(x.Args[0])
 		if s, ok := v.(VSlice); ok {
